@@ -526,6 +526,9 @@ theorem C15_extract_tail_total (e : Extractor) (text : Bytes) (hwf : e.WF) (hf :
 /-! ### fact obligations (Tie B) -/
 
 theorem C15_fact_sampler_rule : Facts.xform_drop_rule = ["tf.totalMatched > 0 && 100*tf.totalDropped/tf.totalMatched < tf.targetRate"] := by decide
+/-- the counters are only ever incremented (no rescaling / windowing): `sampleDrop`'s state is the exact pair of counts -/
+theorem C15_fact_sampler_counters : Facts.xform_drop_counter_writes =
+    ["tf.totalMatched++", "tf.totalDropped++", "tf.totalMatched++"] := by decide
 theorem C15_fact_truncate_copies : Facts.xform_truncate_builds_new_value = some true := by decide
 theorem C15_fact_star_needs_boundary : Facts.xform_star_requires_far_boundary = some true := by decide
 theorem C15_fact_slice_default_end : Facts.tmpl_slice_default_end = ["math.MaxInt32"] := by decide
